@@ -69,11 +69,12 @@ fn c01(quick: bool) -> PropRun {
     let sizes: &[usize] = if quick { &[0, 40, 2000] } else { &[0, 40, 1448, 2000] };
     let (n_small, d_small) = if quick { (2, 2) } else { (3, 2) };
     let small = scripts_upto(n_small, &[0, 1], &MODES, sizes, &[0, 1]);
-    let small_cfgs: Vec<&LwCfg> = if quick { vec![&grid[0], &grid[1]] } else { grid.iter().filter(|c| c.pwin <= 4 || c.pwin == 4096).collect() };
+    let small_cfgs: Vec<&LwCfg> = if quick { vec![&grid[0], &grid[1], &grid[3]] } else { grid.iter().filter(|c| c.pwin <= 4 || c.pwin == 4096).collect() };
     for cfg in small_cfgs.iter() { for s in small.iter() { scs.push(spec("C01.all", cfg, s, env_faulty(if quick { 5 } else { 6 }, 90), d_small, oracles)); } }
     // (i') all 3-packet scripts over the receiver-relevant alphabet (2 channels x {Unreliable, Reliable}), one packet per round or all at once
     let three = scripts_upto(3, &[0, 1], &[SendMode::Unreliable, SendMode::Reliable, SendMode::Persistent], &[40], &[0, 1]);
-    for cfg in small_cfgs.iter().take(if quick { 1 } else { 99 }) {
+    let three_cfgs: Vec<&LwCfg> = if quick { vec![&grid[0], &grid[1], &grid[2]] } else { small_cfgs.clone() };
+    for cfg in three_cfgs.iter() {
         for s in three.iter().filter(|s| s.ops.len() == 3) {
             let s = &Arc::new(ScriptInfo::new(warm(&s.ops, 8)));
             let mut env = env_faulty(if quick { 5 } else { 7 }, 100); env.dev_start = 8;
@@ -84,7 +85,7 @@ fn c01(quick: bool) -> PropRun {
     // (ii) collision scripts
     let d_col = if quick { 2 } else { 3 };
     for cfg in grid.iter() {
-        if quick && cfg.pwin == 4096 && cfg.pbase[0] != 0 { continue; }
+        if quick && cfg.pwin != 4 && cfg.pbase[0] != 0 { continue; }
         for (name, ops) in collision_scripts() {
             let si = Arc::new(ScriptInfo::new(ops));
             let mut env = env_faulty(if quick { 5 } else { 8 }, 120);
@@ -147,6 +148,16 @@ fn c02(quick: bool) -> PropRun {
             envb.fates = FATES_NONE; envb.deltas = &[20];
             envb.blackouts = if quick { &[(3, 3), (1, 100), (2, 100), (3, 500)] } else { &[(3, 3), (1, 20), (2, 20), (1, 100), (2, 100), (3, 100), (3, 500), (3, 3000)] };
             scs.push(spec(&format!("C02.blackout.{}", name), cfg, &si, envb, 1, oracles));
+        }
+    }
+    // all 3-packet scripts over 2 channels x {Unreliable, Reliable, Persistent}, one packet per round on a warm connection, with the liveness oracle
+    let three = scripts_upto(3, &[0, 1], &[SendMode::Unreliable, SendMode::Reliable, SendMode::Persistent], &[40], &[1]);
+    for cfg in [&grid[0], &grid[1]] {
+        for s in three.iter().filter(|s| s.ops.len() == 3) {
+            let s = &Arc::new(ScriptInfo::new(warm(&s.ops, 8)));
+            let mut env = env_live(if quick { 5 } else { 7 }); env.dev_start = 8; env.max_rounds += 8;
+            env.fates = &[Fate::Deliver, Fate::Drop, Fate::Dup, Fate::Delay3]; env.deltas = &[20, 2000];
+            scs.push(spec("C02.three", cfg, s, env, if quick { 2 } else { 3 }, oracles | O_C01));
         }
     }
     PropRun { level: "model_checking", scenarios: scs, units: vec![], replay_case: None, summary: lw_summary(
